@@ -28,6 +28,7 @@ Inductive know :=
 Fixpoint kmeet (k : know) : pset :=          (* parties that know every leaf *)
   match k with
   | KLeaf s => s
+  | KTup [] => pnone          (* nobody is said to know an empty tuple: conservative *)
   | KTup ks => fold_right (fun k acc => pinter (kmeet k) acc) pall ks
   end.
 Fixpoint kjoin_mem (p : party) (k : know) : bool :=   (* p occurs in some leaf *)
@@ -94,29 +95,21 @@ Definition named_pos (t : ty) (name : string) : option Z :=
                   | f :: r => if String.eqb (fst f) name then Some i else go r (i + 1) end) fs 0
   | _ => None
   end.
-Definition route_of (nodes_before : list node) (nd : node) : route :=
-  match n_op nd with
+Definition route_of (dts : list ty) (o : op) : route :=
+  match o with
   | OCreateTuple | OCreateNamedTuple _ | OCreateVector _ => RTuple
   | ONOP => RNop
   | OTupleGet i => RGet i
   | ONamedTupleGet name =>
-      match n_deps nd with
-      | d :: _ => match znth nodes_before d with
-                  | Ok dn => match named_pos (n_ty dn) name with Some i => RGet i | None => RNone end
-                  | _ => RNone end
-      | _ => RNone
-      end
-  | OVectorGet =>
-      match n_deps nd with
-      | [_; c] => match znth nodes_before c with
-                  | Ok cn => match n_op cn with
-                             | OConstant (TScalar U64) (VArr [x]) => RGet x
-                             | _ => RNone end
-                  | _ => RNone end
+      match dts with
+      | dt :: _ => match named_pos dt name with Some i => RGet i | None => RNone end
       | _ => RNone
       end
   | _ => RNone
   end.
+
+Definition dep_types (nodes_before : list node) (ds : list Z) : list ty :=
+  map (fun d => match znth nodes_before d with Ok n => n_ty n | _ => TTuple [] end) ds.
 
 Definition sends_of (nd : node) : list (party * party) :=
   flat_map (fun a => match a with ASend s r => [(s, r)] | _ => [] end) (n_annots nd).
@@ -141,7 +134,7 @@ Definition know_step (c : config) (acc : result (list node * list know * list st
     | OCall | OIterate | OCustom _ => Err          (* only fully inlined graphs *)
     | o =>
         if is_random_op o then Ok (KLeaf (psingle (cert_of c i)), ins) else
-        match route_of before nd, n_deps nd with
+        match route_of (dep_types before (n_deps nd)) o, n_deps nd with
         | RTuple, ds => Ok (KTup (map dep_k ds), ins)
         | RNop, d :: _ => Ok (dep_k d, ins)
         | RGet j, d :: _ => Ok (kget (dep_k d) j, ins)
@@ -184,9 +177,6 @@ Definition kreport (c : config) (nodes : list node) : result (list (Z * bool * b
 Section Exec.
   Variable sem : op -> list ty -> ty -> list value -> result value.
 
-  Definition dep_types (nodes_before : list node) (ds : list Z) : list ty :=
-    map (fun d => match znth nodes_before d with Ok n => n_ty n | _ => TTuple [] end) ds.
-
   (* global (single-evaluator) run; [rho] gives the value of every Random-like node, [gin] the
      inputs in order.  None = the protocol itself fails (error, abort). *)
   Definition gstep (rho : Z -> value) (acc : option (list node * list value * list value)) (nd : node)
@@ -217,7 +207,7 @@ Section Exec.
 
   (* one party's evaluation of one node from its own local values *)
   Definition lnode (before : list node) (nd : node) (deps : list pval) : pval :=
-    match route_of before nd, deps with
+    match route_of (dep_types before (n_deps nd)) (n_op nd), deps with
     | RTuple, ds => PTup ds
     | RNop, d :: _ => d
     | RGet j, d :: _ => match d with
